@@ -602,6 +602,7 @@ class Machine:
     def discriminant(s, v):
         if not isinstance(v, Agg): raise InternalError(f'discriminant of {v!r}')
         if v.ty.startswith('{coroutine'): return I(v.discr, 32)
+        if v.ty == 'Ordering' and v.variant in ('Less', 'Equal', 'Greater'): return I({'Less': -1, 'Equal': 0, 'Greater': 1}[v.variant], 8)   # core::cmp::Ordering is repr(i8)
         vs = s.enums.get(v.ty)
         if vs is None or v.variant not in vs: raise Unmodelled(f'discriminant of {v.ty}::{v.variant}')
         return I(vs.index(v.variant), 64)
